@@ -57,15 +57,15 @@ Definition C07_final_increasing : Prop :=
     Forall (fun e => filter_pass c (estep e) = true) (fst res) /\
     (forall cu, j_mode c = 1 -> j_cursor c = Some cu -> Forall (fun e => rn (cu_blk cu) < bnum (eblk e)) (fst res)).
 
-(* NOT PROVED: the final-blocks-only clause in cursor mode.  The cursor is on a final canonical block L
-   (IsOnFinalBlock: cursor block = cursor LIB block = L); c07_prop checks final_fold (Some (id of L)).  With the memory
-   starting at L's number no counterexample is known (the witness of c07_final_cursor_refuted is repaired), and the
-   argument of C07_seamless_num_final carries over with the file blocks `rest` after L in place of the delivery from
-   start and the memory Some (bnum L) in place of None; what is missing is (1) that generalisation of
-   Proofs/C07_Final.v (final_join / final_live are written for number mode: file events of file_delivery, memory None),
-   (2) the new+irreversible part of the hub's answer to a final cursor, blocks_from_cursor, in both of its paths (cursor
-   block on the hub's chain: from_cursor_fast; hub on a fork below L: the undo path, all of whose events a
-   final-blocks-only handler never sees), like burst_irr for blocks_from_num. *)
+(* The final-blocks-only clause in cursor mode (PROVED: c07_seamless_cursor_final, Proofs/C07_FinalCursor.v).  The cursor is
+   on a final canonical block L (IsOnFinalBlock: cursor block = cursor LIB block = L); c07_prop checks
+   final_fold (Some (id of L)): the first delivered block is the child of L, each further one extends the previous one -
+   for EVERY outcome, any stop block, under the world hypotheses of the C07 theorems alone (no agreement hypothesis between
+   the files, the cursor and the hub's LIB: the filter's memory, which starts at L's number, drops what the hub announces
+   again).  When the stream ends waiting: nothing was delivered (the files do not hold L yet / the hub's LIB never got
+   above L), or it never left the files and has delivered the merged blocks above L, or it has delivered exactly the
+   canonical blocks above L up to a height at or above the hub's LIB: every final canonical block after the cursor,
+   once, in order. *)
 Definition C07_seamless_cursor_final_full : Prop :=
   forall (U : list block) (c : jcfg) (w : world) (ps : list (N * N)) (merged_end : N) (canon forked : list block)
          (cu : cursor) (L : block) (rest : list block),
@@ -83,3 +83,39 @@ Definition C07_seamless_cursor_final_full : Prop :=
     (snd res = JNil ->
        fst res = [] \/ map eblk (fst res) = above (rn (cu_lib cu)) merged \/
        exists hi, final_lib c w <= hi /\ map eblk (fst res) = seg_num (rn (cu_lib cu) + 1) hi canon).
+
+(* NOT PROVED: the final-blocks-only clause in target-cursor mode (the memory starts empty: start_mem = None; c07_prop
+   checks final_fold None).  Stated with the scope of C07_seamless_target (cursor block B on canon) but WITHOUT its two
+   agreement hypotheses files_on_hub / target_on_chain, which a final-blocks-only handler should not need:
+     - a final target cursor (cursor LIB = cursor block; anything else is rejected) is never answered through the
+       "cursor block stored off the chain" branch of blocksThroughCursor (that branch needs blocks_from_cursor = BOk, hence
+       the cursor LIB - the cursor block itself - on the head's segment): target_on_chain is not needed;
+     - the join is not made on identity in this mode, so the hub's answer for number n may start with a forked sibling of
+       the file block - but its new+irreversible part consists of the segment blocks numbered n .. hub LIB, which are final
+       for the hub, hence on canon (the segment up to the LIB block and canon are parent-linked runs of the universe that
+       share the chain of the hub's last head): the file block itself when n <= hub LIB, nothing otherwise; the New events
+       of a forked answer never reach the handler: files_on_hub is not needed.
+   Model runs with the hub on a fork at the join (the world of c07_join_by_number_refuted, target cursors on blocks 8, 12,
+   14) and with a lagging hub satisfy it.  Missing for a proof: (1) final_tail of Proofs/C07_FinalCursor.v for the empty
+   starting memory (anchor = the block under the first delivered one instead of the cursor block L; the number-mode proof
+   Proofs/C07_Final.v does this inline), (2) the shape of hub_through_cursor's answer for a final cursor without
+   target_on_chain, and "a canonical block numbered between the segment's first block and the hub's LIB is on the
+   segment", which replaces the join on identity (burst_irr / burst_parent_le for blocks_from_num use it through id_joins). *)
+Definition C07_seamless_target_final_full : Prop :=
+  forall (U : list block) (c : jcfg) (w : world) (ps : list (N * N)) (merged_end : N) (canon forked : list block)
+         (cu : cursor) (B : block),
+    wf_b U = true -> lib_ok_b LNone U = true ->
+    hub_of_universe U c w ->
+    chain_ok canon -> incl canon U ->
+    let merged := filter (fun b => bnum b <? merged_end) canon in
+    eventual_tip c w canon ->
+    j_mode c = 2 -> j_cursor c = Some cu -> j_filter c = 1 ->
+    0 < j_bundle c -> Forall (fun b => bnum b < file_bound) merged ->
+    In B canon -> bref B = cu_blk cu -> cu_lib cu = cu_blk cu ->
+    let res := stream_run c w ps merged_end merged forked in
+    let start := run_start c w in
+    (exists b, In b canon /\ bnum b = start) ->
+    final_fold None (fst res) = true /\
+    (snd res = JNil ->
+       (exists D1 D2, from_num start merged = D1 ++ D2 /\ map eblk (fst res) = D1) \/
+       exists hi, final_lib c w <= hi /\ from_num start (map eblk (fst res)) = seg_num start hi canon).
